@@ -54,8 +54,13 @@ def build(cfg, variant=0):
         else:
             section = Mesher().Mesh_2D(Domain(Point(-0.25, -0.125), Point(0.25, 0.125)))
             # 2-D / 3-D beams are inclined so that the local-to-global map is exercised
-            p2 = {1: Point(3, 0), 2: Point(3 * 0.6, 3 * 0.8), 3: Point(3 * 2 / 3, 3 * 2 / 3, 3 * 1 / 3)}[dim]
-            line = Line(Point(0, 0), p2, 1.5 if variant == 0 else 0.8)
+            dirs = {1: {"ur": (1, 0, 0), "ul": (-1, 0, 0)},
+                    2: {"ur": (0.6, 0.8, 0), "ul": (-0.6, 0.8, 0), "dl": (-0.8, -0.6, 0), "dr": (0.8, -0.6, 0)},
+                    3: {"ur": (2 / 3, 2 / 3, 1 / 3), "ul": (-2 / 3, 2 / 3, 1 / 3), "dl": (-2 / 3, -1 / 3, -2 / 3), "dr": (1 / 3, -2 / 3, 2 / 3)}}[dim]
+            t = dirs[cfg.get("dir", "ur")]
+            p1 = Point(3, 0) if (dim == 1 and t[0] < 0) else Point(0, 0)
+            p2 = Point(p1.x + 3 * t[0], p1.y + 3 * t[1], p1.z + 3 * t[2])
+            line = Line(p1, p2, 1.5 if variant == 0 else 0.8)
             beam = Models.Beam.Isotropic(dim, line, section, 10.0, 0.25)
             mesh = Mesher().Mesh_Beams([beam], elemType=ElemType(elem))
             sim = Simulations.Beam(mesh, Models.Beam.BeamStructure([beam]), verbosity=False, useTimoshenko=(phys == "beamTimo"))
@@ -100,7 +105,7 @@ def analyse(sim, cfg, which=("K", "M")):
     out = []
     phys, dim, elem = cfg["phys"], cfg["dim"], cfg["elem"]
     K, C, M, F = [m.toarray() for m in sim.Get_K_C_M_F()]
-    tag = f"{phys}{dim}D/{elem}"
+    tag = f"{phys}{dim}D/{elem}" + (f"/{cfg['dir']}" if phys.startswith("beam") and cfg.get("dir", "ur") != "ur" else "")
     used = np.unique(np.concatenate([g.connect.ravel() for g in sim.mesh.Get_list_groupElem()]))
     dofn = sim.Get_dof_n()
     dofs = (used[:, None] * dofn + np.arange(dofn)[None, :]).ravel()
